@@ -16,8 +16,38 @@ VERIF = os.path.dirname(os.path.dirname(os.path.dirname(os.path.abspath(__file__
 REPO = os.environ.get("VERIF_REPO", "/repo")
 TOOLKIT = os.path.join(REPO, "src/target/trx_toolkit")
 
+OUT = os.environ.get("VERIF_OUT", VERIF)      # where evidence/ and replay/ are written (mutation runs redirect it)
+
 QUICK_BUDGET_S = 30
 THOROUGH_BUDGET_S = 180
+
+
+RANGED = {}     # array name -> (lo, hi): axiom  forall i. lo <= arr[i] <= hi, instantiated at every Select in a query
+
+
+def ranged_array(name, lo, hi):
+    RANGED[name] = (lo, hi)
+
+
+def range_instances(terms):
+    """Instances of the element-range axioms for every `Select(arr, i)` over a registered array occurring in `terms`."""
+    out, seen, todo = [], set(), list(terms)
+    while todo:
+        t = todo.pop()
+        k = t.get_id()
+        if k in seen:
+            continue
+        seen.add(k)
+        if z3.is_app(t):
+            if z3.is_select(t):
+                a = t.arg(0)
+                if z3.is_const(a) and a.decl().name() in RANGED:
+                    lo, hi = RANGED[a.decl().name()]
+                    out.append(z3.And(t >= lo, t <= hi))
+            todo.extend(t.children())
+        elif z3.is_quantifier(t):
+            todo.append(t.body())
+    return out
 
 
 class Obligation:
@@ -38,6 +68,10 @@ class Obligation:
         self.bounded = bounded    # None or int K  (bounded stand-in, never counted as proved)
         self.tag = tag            # free payload for the property driver (e.g. path outcome)
         # filled by the pipeline
+        try:
+            self.range_facts = range_instances(self.assumptions + [self.goal])
+        except Exception:
+            self.range_facts = []
         self.status = None        # proved | failed | unknown | error
         self.backend = None
         self.time_s = 0.0
@@ -57,6 +91,8 @@ class Obligation:
             for a in self.assumptions:
                 s.add(a)
             s.add(z3.Not(self.goal))
+            for a in self.range_facts:
+                s.add(a)
             self.smt2 = s.to_smt2()
         return self.smt2
 
@@ -184,6 +220,8 @@ def model_of(obl, budget_s=60):
     for a in obl.assumptions:
         s.add(a)
     s.add(z3.Not(obl.goal))
+    for a in obl.range_facts:
+        s.add(a)
     if s.check() == z3.sat:
         return s.model()
     return None
@@ -196,6 +234,8 @@ def model_of_excluding(obl, extra, budget_s=60):
     for a in obl.assumptions:
         s.add(a)
     s.add(z3.Not(obl.goal))
+    for a in obl.range_facts:
+        s.add(a)
     for e in extra:
         s.add(e)
     r = s.check()
@@ -332,7 +372,7 @@ class Run:
             "violations": len(self.violations),
         }
         ev["coverage"].update(self.extra)
-        d = os.path.join(VERIF, "evidence")
+        d = os.path.join(OUT, "evidence")
         os.makedirs(d, exist_ok=True)
         tmp = os.path.join(d, ".%s.json.tmp" % self.prop)
         with open(tmp, "w") as f:
@@ -342,11 +382,11 @@ class Run:
 
 
 def write_replay(prop, obl_name, payload):
-    d = os.path.join(VERIF, "replay", prop)
+    d = os.path.join(OUT, "replay", prop)
     os.makedirs(d, exist_ok=True)
     h = hashlib.sha1(obl_name.encode()).hexdigest()[:8]
     safe = "".join(c if c.isalnum() or c in "._-" else "_" for c in obl_name)[:80]
     path = os.path.join(d, "%s-%s.json" % (safe, h))
     with open(path, "w") as f:
         json.dump(payload, f, indent=1, default=str)
-    return os.path.relpath(path, VERIF)
+    return os.path.relpath(path, OUT)
